@@ -92,7 +92,7 @@ func vhArgOp() Operator {
 }
 
 // vhAnyCount is the size of the catalogue of awkward values (C08 part b).
-const vhAnyCount = 30
+const vhAnyCount = 35
 
 // vhAnyValue returns entry k of the catalogue.
 // vhSpecial, when set, replaces catalogue entry 3 (an initialised Stack): it
@@ -174,14 +174,26 @@ func vhAnyValue(k int) any {
 		}
 		return &np
 	case 27:
-		return "stdout"
+		return vhAliasStack{}
 	case 28:
-		return 1
+		return &Stack{}
 	case 29:
+		return &vhAliasCond{}
+	case 30:
+		return "stdout"
+	case 31:
+		return 1
+	case 32:
 		return LogLevel(4)
+	case 33:
+		return []any{"CONDITION", "mk", Eq, "mv"}
+	case 34:
+		return []any{"OR", "m1", "m2"}
 	}
 	return nil
 }
+
+const vhAnyTail = 5
 
 // vhAnyLimit restricts vhArgAny to the first vhAnyLimit catalogue entries
 // (harnesses set it; 0 = whole catalogue).
@@ -192,11 +204,11 @@ func vhArgAny() any {
 	if vhAnyLimit > 0 {
 		n = vhAnyLimit
 	}
-	// the last three entries (values meaningful to the logging setters) are
-	// always part of the selection
-	k := nondetChoice(n + 3)
+	// the last vhAnyTail entries (values meaningful to the logging setters and
+	// to Marshal) are always part of the selection
+	k := nondetChoice(n + vhAnyTail)
 	if k >= n {
-		return vhAnyValue(vhAnyCount - 3 + (k - n))
+		return vhAnyValue(vhAnyCount - vhAnyTail + (k - n))
 	}
 	return vhAnyValue(k)
 }
